@@ -177,6 +177,10 @@ class MyGradUnaryUfunc(MyGradUfunc):
         constant: Optional[bool] = None,
         **kwargs,
     ) -> Tensor:
+        if isinstance(where, Tensor):
+            # (handing the tensor itself to the NumPy ufunc would dispatch back here)
+            where = where.data
+
         # it is fastest to check if out is None, which is likely the
         # most common scenario, and this is a very "hot path" in the
         # code
@@ -212,6 +216,10 @@ class MyGradBinaryUfunc(MyGradUfunc):
         dtype: DTypeLikeReals = None,
         constant: Optional[bool] = None,
     ) -> Tensor:
+        if isinstance(where, Tensor):
+            # (handing the tensor itself to the NumPy ufunc would dispatch back here)
+            where = where.data
+
         # it is fastest to check if out is None, which is likely the
         # most common scenario, and this is a very "hot path" in the
         # code
